@@ -185,12 +185,12 @@ def anchors():
     return mp
 
 
-def phase_b(m, amap, max_checks):
+def phase_b(m, amap, max_checks, skip=()):
     order = list(amap.get(m["file"], []))
     if m["file"].startswith("bin/"): order = ["C20"]
     for b in BROAD:
         if b not in order and not m["file"].startswith("bin/"): order.append(b)
-    order = order[:max_checks]
+    order = [p for p in order if p not in skip][:max_checks]
     d = tempfile.mkdtemp(prefix="mutB.", dir="/tmp"); res = dict(id=m["id"], tried=[], killed_by=None, infra=[])
     try:
         make_copy(m, d)
@@ -213,7 +213,7 @@ def phase_b(m, amap, max_checks):
 
 def main():
     ap = argparse.ArgumentParser()
-    ap.add_argument("cmd", choices=["gen", "run", "report"])
+    ap.add_argument("cmd", choices=["gen", "run", "retry", "report"])
     ap.add_argument("--files", nargs="*"); ap.add_argument("--out", default=os.path.join(VERIF, "mutation"))
     ap.add_argument("--jobs", type=int, default=8); ap.add_argument("--limit", type=int, default=0); ap.add_argument("--sample", type=int, default=0)
     ap.add_argument("--max-checks", type=int, default=4)
@@ -246,10 +246,28 @@ def main():
                 if m["id"] in doneB: continue
                 r = phase_b(m, amap, a.max_checks); f.write(json.dumps(r) + "\n"); f.flush()
                 print("phase B %d/%d %s %s:%d %r -> %r : %s" % (k, len(surv), m["id"], m["file"], m["line"], m["old"][:30], m["new"][:30], r["killed_by"] or "SURVIVED"), flush=True)
+    if a.cmd == "retry":     # survivors of the first pass against the checks that pass did not get to
+        ms = {m["id"]: m for m in json.load(open(os.path.join(a.out, "mutants.json")))}
+        B = {}
+        for l in open(fb):
+            r = json.loads(l)
+            if r["id"] in B: r["tried"] = B[r["id"]]["tried"] + r["tried"]
+            B[r["id"]] = r
+        amap = anchors(); todo = [r for r in B.values() if not r["killed_by"] and r["id"] in ms]
+        with open(fb, "a") as f:
+            for k, r0 in enumerate(todo):
+                m = ms[r0["id"]]; r = phase_b(m, amap, a.max_checks, skip=[t["check"] for t in r0["tried"]])
+                if not r["tried"]: continue
+                f.write(json.dumps(r) + "\n"); f.flush()
+                print("retry %d/%d %s %s:%d %r -> %r : %s" % (k, len(todo), m["id"], m["file"], m["line"], m["old"][:30], m["new"][:30], r["killed_by"] or "SURVIVED"), flush=True)
     # report
     ms = {m["id"]: m for m in json.load(open(os.path.join(a.out, "mutants.json")))}
     A = {json.loads(l)["id"]: json.loads(l) for l in open(fa)} if os.path.exists(fa) else {}
-    B = {json.loads(l)["id"]: json.loads(l) for l in open(fb)} if os.path.exists(fb) else {}
+    B = {}
+    for l in (open(fb) if os.path.exists(fb) else []):
+        r = json.loads(l)
+        if r["id"] in B: r["tried"] = B[r["id"]]["tried"] + r["tried"]; r["infra"] = B[r["id"]].get("infra", []) + r.get("infra", [])
+        B[r["id"]] = r
     cnt = {}
     for i, m in ms.items():
         st = A.get(i, {}).get("a", "not-run")
